@@ -152,6 +152,12 @@ class ZemaxFileReader:
         if not success:
             raise ValueError('Failed to read Zemax file.')
 
+        # store the last (image) surface, which is not followed by a SURF line
+        if self._current_surf >= 0 and \
+                self._current_surf not in self.data['surfaces']:
+            self.data['surfaces'][self._current_surf] = \
+                self._current_surf_data
+
         # sort and filter fields
         unique_fields = set()
         for i in range(min(len(self.data['fields']['x']),
